@@ -128,10 +128,9 @@ def serialize_nested_empty(k: int, s: str) -> bool:
 from elementpath.helpers import is_xml_codepoint  # noqa: E402
 
 
-@ob(budget=60, bound='every code point', funcs=[H + ':is_xml_codepoint'])
+@ob(budget=60, bound='EVERY integer (also negative and beyond 0x10FFFF)', funcs=[H + ':is_xml_codepoint'])
 def xml_codepoint_predicate(cp: int) -> bool:
     """
-    pre: 0 <= cp <= 0x10FFFF
     post: _
     """
     want = cp in (9, 10, 13) or 0x20 <= cp <= 0xD7FF or 0xE000 <= cp <= 0xFFFD or 0x10000 <= cp <= 0x10FFFF
